@@ -239,8 +239,9 @@ def compare_rows(col, rows, expect, cls, inp, phase):
     return True
 
 
-def check_radar(col, binpath, rng, tag, seg_kind, delay_kind, malformed, disconnect, scratch):
-    limit = rng.random() < 0.25
+def check_radar(col, binpath, rng, tag, seg_kind, delay_kind, malformed, disconnect, scratch, limit=None):
+    if limit is None:
+        limit = rng.random() < 0.25
     lines, expect = build_feed(rng, rng.randint(20, 70), malformed)
     steps, midline = segment(rng, lines, seg_kind, delay_kind)
     opts = ["--filter-time", "100000"]
@@ -248,7 +249,7 @@ def check_radar(col, binpath, rng, tag, seg_kind, delay_kind, malformed, disconn
         opts.append("--limit-parsing")
     plan = steps + [("mark", "feed_done")]
     lines2, expect2 = [], {}
-    if disconnect == "retry":
+    if disconnect in ("retry", "retry_midline", "retry_backlog"):
         opts.append("--retry-tcp")
         # second connection: more lines for the same aircraft; counts must continue
         addrs = list(expect.keys())
@@ -257,7 +258,15 @@ def check_radar(col, binpath, rng, tag, seg_kind, delay_kind, malformed, disconn
             a = rng.choice(addrs)
             lines2.append(("good", enc.line(enc.long_frame(17, 5, a, enc.me_unique(23, 900000 + k))), a, None))
         lines2.append(("good", enc.line(enc.long_frame(17, 5, SENTINEL, enc.me_ident(4, 0, "ENDFEED"))), SENTINEL, "ENDFEED"))
-        plan += [("sleep", 3.0), ("close",), ("sleep", rng.choice([0.1, 0.5, 2.0])), ("accept", 25.0)] + [("send", d) for _, d, *_ in lines2] + [("mark", "feed2_done"), ("sleep", 60)]
+        if disconnect == "retry_midline":
+            # the connection drops in the middle of a line: what was received of it must not leak into the next connection
+            plan += [("sleep", 3.0), ("send", b"*8D4840D6202C"), ("sleep", 0.3), ("close",), ("sleep", rng.choice([0.1, 0.5])), ("accept", 25.0)]
+        elif disconnect == "retry_backlog":
+            # the server stays up but does not accept for longer than the client's 10 s connect timeout
+            plan += [("sleep", 3.0), ("close",), ("saturate", 13.0, 40.0)]
+        else:
+            plan += [("sleep", 3.0), ("close",), ("sleep", rng.choice([0.1, 0.5, 2.0])), ("accept", 25.0)]
+        plan += [("send", d) for _, d, *_ in lines2] + [("mark", "feed2_done"), ("sleep", 60)]
     elif disconnect == "midline":
         plan += [("sleep", 3.0), ("send", b"*8D4840D6202C"), ("sleep", 0.2), ("close",), ("sleep", 20)]
     else:
@@ -295,18 +304,18 @@ def check_radar(col, binpath, rng, tag, seg_kind, delay_kind, malformed, disconn
         # ---- disconnect behaviour
         if any(e[1] == "closed" for e in sess.srv.log) and not sess.p.alive() and disconnect != "retry":
             pass
-        if disconnect == "retry":
-            end = time.monotonic() + 60
+        if disconnect in ("retry", "retry_midline", "retry_backlog"):
+            end = time.monotonic() + 90
             while time.monotonic() < end and not any(e[1] == "mark" and e[2] == "feed2_done" for e in sess.srv.log):
                 sess.p.pump(0.05)
                 if not sess.p.alive() or sess.srv.error:
                     break
             if not sess.p.alive():
-                col.add("C16", f"C16|radar_retry_exited|{cls}", f"with --retry-tcp radar exited (status {sess.p.p.returncode}, panic {sess.panic_location()}) after the server dropped the connection", inp)
+                col.add("C16", f"C16|radar_retry_exited|{cls}|disc={disconnect}", f"with --retry-tcp radar exited (status {sess.p.p.returncode}, panic {sess.panic_location()}) after the server dropped the connection", inp)
                 return
             if sess.srv.connections < 2:
                 if sess.srv.error:
-                    col.add("C16", f"C16|radar_retry_no_reconnect|{cls}", f"with --retry-tcp radar did not reconnect within 25 s ({sess.srv.error})", inp)
+                    col.add("C16", f"C16|radar_retry_no_reconnect|{cls}|disc={disconnect}", f"with --retry-tcp radar did not reconnect ({sess.srv.error})", inp)
                     return
                 raise Inconclusive("second connection not observed")
             for _, d, a, _ in lines2:
@@ -314,7 +323,7 @@ def check_radar(col, binpath, rng, tag, seg_kind, delay_kind, malformed, disconn
             rows = parse_when_stable(sess, sentinel_msgs=2)
             if rows is None:
                 raise Inconclusive("Airplanes table not found after reconnect")
-            compare_rows(col, rows, expect, cls, dict(inp, lines2=[d.decode() for _, d, *_ in lines2]), "after_reconnect_tracked_aircraft_kept")
+            compare_rows(col, rows, expect, cls + ("" if disconnect == "retry" else f"|disc={disconnect}"), dict(inp, lines2=[d.decode() for _, d, *_ in lines2]), "after_reconnect_tracked_aircraft_kept")
             col.count("reconnects_observed")
         else:
             # wait for the close, then for the exit
@@ -360,11 +369,17 @@ def main(a, lcol, col, run_all, scratch, START):
     extra = 1500 if thorough else 0
     for _ in range(extra):
         combos.append((rng0.choice(SEGMENTATIONS), rng0.choice(list(DELAYS)), rng0.choice(malformed_kinds)))
+    n_backlog = 0
     for i, (sk, dk, m) in enumerate(combos):
         tag = f"{sk}/{dk}/{m}#{i}"
-        disc = ["close", "retry", "midline"][i % 3]
+        disc = ["close", "retry", "midline", "retry_midline"][i % 4]
+        if i % 40 == 21 and (thorough or n_backlog == 0):
+            disc = "retry_backlog"
+            n_backlog += 1
+        # --limit-parsing: on for the plain run of every malformed kind, off for its mid-line-pause run, random elsewhere
+        limit = (dk == "none") if m != "none" else None
         if thorough or i % 2 == 0 or m != "none":
-            jobs.append((f"radar/{tag}", lambda rng, sk=sk, dk=dk, m=m, disc=disc, tag=tag: check_radar(lcol, a.bin, rng, tag, sk, dk, m, disc, scratch)))
+            jobs.append((f"radar/{tag}", lambda rng, sk=sk, dk=dk, m=m, disc=disc, tag=tag, limit=limit: check_radar(lcol, a.bin, rng, tag, sk, dk, m, disc, scratch, limit)))
         jobs.append((f"1090/{tag}", lambda rng, sk=sk, dk=dk, m=m, tag=tag: check_1090(lcol, a.bin, rng, tag, sk, dk, m, scratch)))
     if a.replay:
         import json
@@ -380,6 +395,6 @@ def main(a, lcol, col, run_all, scratch, START):
     col.sample({"scenario": "radar per_line/none/none", "what": "20-70 unique '*<hex>;' lines for 1-5 aircraft; per-aircraft Msgs column and last callsign compared after the feed; then server close -> exit status / terminal restored"})
     col.sample({"scenario": "1090 cut_in_hex/gt_timeout/none", "what": "every line cut in the middle of its hex digits with 70-150 ms pauses; stdout echo sequence must equal the sent sequence"})
     return vlib.finish(col, "C16", a.tier, a.seed, "fault_enumeration",
-        "each scenario = one fresh client process against a scripted TCP feed of unique '*<hex>;' lines: 9 segmentation kinds x 4 delay classes (below / around / above the 50 ms read timeout) x 16 malformed-line kinds (each followed by sentinel lines) x 3 disconnect modes (close / close mid-line / close+re-accept with --retry-tcp); 1090: stdout echo sequence == sent sequence; radar: per-aircraft Msgs column == lines sent, callsign == last identification line, tab title count, exit status and terminal state after a disconnect, counts continue after a reconnect; distinct_nontrivial = distinct (client, segmentation, delay, malformed, disconnect) cells run",
+        "each scenario = one fresh client process against a scripted TCP feed of unique '*<hex>;' lines: 9 segmentation kinds x 4 delay classes (below / around / above the 50 ms read timeout) x 16 malformed-line kinds (each followed by sentinel lines) x 5 disconnect modes (close / close mid-line / close+re-accept with --retry-tcp / drop mid-line + re-accept / server alive but not accepting for 13 s); 1090: stdout echo sequence == sent sequence; radar: per-aircraft Msgs column == lines sent, callsign == last identification line, tab title count, exit status and terminal state after a disconnect, counts continue after a reconnect; distinct_nontrivial = distinct (client, segmentation, delay, malformed, disconnect) cells run",
         ["delays are relative to a 50 ms timeout on a loaded machine: the number of mid-line pauses > 50 ms is what the plan requested, the property must hold for every schedule", "CRLF-terminated lines are not counted as well-formed lines"],
-        a.verif, START, n, len(col.classes), extra={"fault_kinds": {"segmentations": SEGMENTATIONS, "delays": list(DELAYS), "malformed": malformed_kinds, "disconnect": ["close", "midline", "retry"]}}, min_evaluations=10)
+        a.verif, START, n, len(col.classes), extra={"fault_kinds": {"segmentations": SEGMENTATIONS, "delays": list(DELAYS), "malformed": malformed_kinds, "disconnect": ["close", "midline", "retry", "retry_midline", "retry_backlog"]}}, min_evaluations=10)
